@@ -129,7 +129,10 @@ class BufferedReader(io.RawIOBase):
             self.reader.seek(bucket + self.offset, io.SEEK_SET)
         b = Buffer(bucket, self.reader.read(self.buffersize))
         if self.size is None and b.size < self.buffersize:
-            self.size = bucket + b.size
+            # a short read means the end of the file has been reached
+            self.reader.seek(0, io.SEEK_END)
+            self.size = max(0, self.reader.tell() - self.offset)
+            self.pos = min(self.pos, self.size)
         self.buffers[bucket] = b
         self.num_buffers += 1
         assert self.num_buffers <= self.max_buffers
@@ -140,11 +143,11 @@ class BufferedReader(io.RawIOBase):
             return self.readall()
         if self.size is not None:
             n = min(n, self.size - self.pos)
-            if n <= 0:
-                return r''
-        b = self.peek(n)
-        self.pos += n
-        return b[:n]
+        if n <= 0:
+            return r''
+        b = self.peek(n)[:n]
+        self.pos += len(b)
+        return b
 
     def readall(self):
         self.reader.seek(self.pos + self.offset)
